@@ -48,6 +48,32 @@ class Ctx:
             # rules (age limits, permission bits), and there is nothing to gain from summarising them
             if b['def_kind'] == 'Fn' and b['arg_count'] == 0 and not [c for c in self.cg.local_edges.get(k, ()) if c in self.B and self.B[c]['def_kind'] != 'Closure']:
                 self.pure.discard(k)
+        # crate-local implementations of std's conversion/projection traits (`impl AsRef<Path> for Ready`) are projections
+        for k in list(self.pure):
+            it = self.B[k].get('impl_trait')
+            if isinstance(it, str) and it.split('<')[0] in ('std::convert::AsRef', 'std::convert::AsMut', 'std::ops::Deref', 'std::ops::DerefMut',
+                                                             'std::borrow::Borrow', 'std::convert::From', 'std::convert::Into'):
+                self.pure.discard(k)
+        # small effect-free inherent methods of crate-local value types (`scan.finish()`, `stamps.accessed()`): projections
+        # and tiny state machines whose result the rules need to see through
+        for k in list(self.pure):
+            b = self.B[k]
+            if b['def_kind'] == 'AssocFn' and not b.get('impl_trait') and b['arg_count'] >= 1 and \
+                    len([x for x in b['blocks'] if not x['cleanup']]) <= 6 and not self.cg.local_edges.get(k):
+                t1 = self.T[b['locals'][1]['ty']]
+                if t1['k'] == 'ref':
+                    t1 = self.T[t1['to']]
+                if t1['k'] == 'adt' and t1.get('local') and b['locals'][1].get('name') == 'self':
+                    self.pure.discard(k)
+        # time arithmetic helpers: small pure functions over FileTime / scalars only (`unaccessed_times(now)`)
+        for k in list(self.pure):
+            b = self.B[k]
+            if b['def_kind'] in ('Fn', 'AssocFn') and not b.get('impl_trait') and b['arg_count'] >= 1 and \
+                    len([x for x in b['blocks'] if not x['cleanup']]) <= 8 and not self.cg.local_edges.get(k) and \
+                    any(self.T[b['locals'][i]['ty']]['s'] == 'filetime::FileTime' for i in range(1, b['arg_count'] + 1)) and \
+                    all(self.T[b['locals'][i]['ty']]['s'] == 'filetime::FileTime' or self.T[b['locals'][i]['ty']]['k'] in ('bool', 'int', 'uint')
+                        for i in range(1, b['arg_count'] + 1)):
+                self.pure.discard(k)
         # provided (default) methods of the crate's own traits are composition logic over the required accessors (e.g.
         # `entry_path(name)` = validate + base_dir + push), not roles: always looked through
         for tr in self.traits.values():
@@ -79,10 +105,18 @@ class Ctx:
         # rules (C07 G3, C16 R16.5, C17 R17.2) must see which tests they make
         for k in list(self.pure):
             b = self.B[k]
-            if b['def_kind'] in ('Fn', 'AssocFn') and not b.get('impl_trait') and self.T[b['locals'][0]['ty']]['k'] == 'bool' and \
-                    any(x in self.T[b['locals'][i]['ty']]['s'] for i in range(1, b['arg_count'] + 1)
-                        for x in ('std::fs::DirEntry', 'std::fs::Metadata', 'std::ffi::OsStr', 'std::fs::FileType')):
+            if b['def_kind'] not in ('Fn', 'AssocFn') or b.get('impl_trait'):
+                continue
+            about_entry = any(x in self.T[b['locals'][i]['ty']]['s'] for i in range(1, b['arg_count'] + 1)
+                              for x in ('std::fs::DirEntry', 'std::fs::Metadata', 'std::ffi::OsStr', 'std::fs::FileType'))
+            small = len([x for x in b['blocks'] if not x['cleanup']]) <= 4 and not self.cg.local_edges.get(k)
+            if self.T[b['locals'][0]['ty']]['k'] == 'bool' and about_entry:
                 self.pure.discard(k)
+            elif about_entry and small:
+                self.pure.discard(k)        # e.g. a small value type built from a Metadata (its times)
+            elif self.T[b['locals'][0]['ty']]['k'] == 'bool' and small and b['arg_count'] == 1 and \
+                    self.T[b['locals'][1]['ty']]['k'] == 'ref' and self.T[self.T[b['locals'][1]['ty']]['to']].get('local'):
+                self.pure.discard(k)        # a small predicate over the fields of a crate-local value (`stamps.accessed()`)
         # state transformers: an effect-free helper that writes through a `&mut` parameter (`listing.count_entry()`).
         # Summarising it would havoc the whole object at every call; its few assignments are cheaper and exact
         for k in list(self.pure):
